@@ -9,10 +9,12 @@ Abstract input (small JSON):
                'tmpl': [t][s][c] small ints, 'tmpl_dtype': str,
                'pc': [t][j] ints in [0, n_channels), 'tf': [t][j] ints in [0, n_templates), 'ind_dtype': str,
                'wm' | 'wmi' | 'sim': None | [[numbers exact in float32]],
-               'ncd': int, 'rate': float, 'offset': int}, ...]}
-Spike files (needed by the 'merge' route only) are derived from the template count: every probe gets
-max(2, n_templates + 1) spikes that use every template, so that the spike side (property C11) is in its
-plain regime."""
+               'ncd': int, 'rate': float, 'offset': int,
+               'st': [template id of each spike of the probe]   (optional)}, ...]}
+Spike files: spike i of probe k has time 3 i + k, template (= cluster) st[i], amplitude 1.  Without 'st' every probe gets
+max(2, n_templates + 1) spikes that use every template.  With 'st' some templates of a probe may have no spike --
+trailing ones (the numbers of templates and max(spike_templates) + 1 then differ: the cross-property clause 27 of
+C12/Corr.v) or middle ones."""
 import os
 
 UNIT = 4     # positions are integers in units of 1/UNIT
@@ -46,7 +48,24 @@ def gen_probe(rng, nc=None, nt=None, ns=3, pcw=2, tfw=2, **o):
 
     def mat(n):
         return [[rng.choice([0, 0, 1, 2, -1, 0.5, 3, -4]) for _ in range(n)] for _ in range(n)]
+    stmode = o.get('stmode', rng.choice(['all', 'all', 'trailing', 'trailing', 'middle', 'random']))
+    if stmode == 'trailing' and nt >= 2:          # the last u templates have no spike
+        used = list(range(nt - rng.randint(1, nt - 1)))
+    elif stmode == 'middle' and nt >= 3:          # a middle template has no spike, the last one has
+        drop = rng.randrange(1, nt - 1)
+        used = [t for t in range(nt) if t != drop]
+    elif stmode == 'random':
+        used = sorted(rng.sample(range(nt), rng.randint(1, nt)))
+    else:
+        used = list(range(nt))
+    st = list(used) + [rng.choice(used) for _ in range(rng.randint(0, 2))]
+    if stmode in ('middle', 'all') and (nt - 1) not in st:
+        st.append(nt - 1)
+    rng.shuffle(st)
+    if len(st) < 2:
+        st.append(st[0])
     p = {
+        'st': st,
         'cm': cm, 'cm_dtype': o.get('cm_dtype', rng.choice(['int32', 'int32', 'int64', 'uint32'])),
         'pos': pos, 'pos_dtype': o.get('pos_dtype', rng.choice(['float64', 'float64', 'float32'])),
         'tmpl': tmpl, 'tmpl_dtype': o.get('tmpl_dtype', rng.choice(['float32', 'float32', 'float64'])),
@@ -92,8 +111,8 @@ def materialise(inp, base):
             f.write("dat_path = ['raw%d.dat']\nn_channels_dat = %d\ndtype = 'int16'\noffset = %d\n"
                     "sample_rate = %r\nhp_filtered = False\n" % (k, p['ncd'], p['offset'], float(p['rate'])))
         # spike side (read unconditionally by the spike methods of Merger)
-        nspk = max(2, nt + 1)
-        st = (np.arange(nspk) % nt).astype('uint32')
+        st = np.array(spike_templates(p), dtype='uint32')
+        nspk = len(st)
         np.save(os.path.join(d, 'spike_times.npy'), (np.arange(nspk, dtype='uint64') * 3 + k))
         np.save(os.path.join(d, 'spike_templates.npy'), st)
         np.save(os.path.join(d, 'spike_clusters.npy'), st.copy())
@@ -102,7 +121,17 @@ def materialise(inp, base):
     return subdirs
 
 
-METHODS = [('write_params', 26), ('write_channel_data', 21), ('write_channel_positions', 21),
+def spike_templates(p):
+    nt = len(p['tmpl'])
+    return list(p['st']) if p.get('st') is not None else [i % nt for i in range(max(2, nt + 1))]
+
+
+def spike_times(p, k):
+    return [3 * i + k for i in range(len(spike_templates(p)))]
+
+
+METHODS = [('write_params', 26), ('write_spike_times', 27), ('write_spike_data', 27), ('write_spike_clusters', 27),
+           ('write_channel_data', 21), ('write_channel_positions', 21),
            ('write_templates', 23), ('write_template_data', 25), ('write_misc', 24)]
 
 
@@ -172,6 +201,8 @@ def observe(out):
     obs['wm'] = load('whitening_mat.npy', 2, 'tok')
     obs['wmi'] = load('whitening_mat_inv.npy', 2, 'tok')
     obs['sim'] = load('similar_templates.npy', 2, 'tok')
+    obs['stimes'] = load('spike_times.npy', 1, 'int')
+    obs['st'] = load('spike_templates.npy', 1, 'int')
     return obs
 
 
